@@ -62,6 +62,7 @@ def build(chk):
     c_grid3_params(chk)
     c_grid3_maps(chk)
     c_cache(chk)
+    c_constructors(chk)
     c_callers(chk)
 
 
@@ -342,6 +343,73 @@ def c_cache(chk):
         chk.vc(f"Grid3Scales.changePositionFalloffScale.positionFalloff-follows.{i}", p.pc,
                Eq(g.attrs["positionFalloff"], g.attrs["wallThickness"]),
                func="grid3Scales.Grid3Scales.changePositionFalloffScale", kind="inv")
+
+
+def cache_is_current(chk, name, g, pc, module, cls, fn):
+    """the cached coordinate and Jacobian arrays of ``g`` equal the maps of its CURRENT parameters at its own compact nodes"""
+    final = {k: v for k, v in g.attrs.items() if not isinstance(v, (np.ndarray, Stale))}
+    nodes = [as_array(g.attrs[n]) for n in ("chiValues", "rzValues", "rpValues")]
+
+    def mk(it):
+        o = SymObj(cls, module, label="fresh")
+        o.attrs.update(final)
+        return o, nodes, {}, {}
+    (d,) = sel(chk.summarize(module, f"{cls}.decompactify", mk, record=False))
+    (j,) = sel(chk.summarize(module, f"{cls}.compactificationDerivatives", mk, record=False))
+    goals = []
+    for nm, val in list(zip(("xiValues", "pzValues", "ppValues"), d.value)) + list(zip(("dxidchi", "dpzdrz", "dppdrp"), j.value)):
+        cached = g.attrs.get(nm)
+        if cached is None or isinstance(cached, Stale):
+            goals.append(sp.false)
+            continue
+        a_, b_ = as_array(cached).reshape(-1), as_array(val).reshape(-1)
+        if len(a_) != len(b_):
+            goals.append(sp.false)
+            continue
+        goals += [Eq(x, y) for x, y in zip(a_, b_)]
+    chk.vc(name, pc, And(*goals), func=fn, kind="inv")
+
+
+def c_constructors(chk):
+    """After construction the object's parameters are the constructor's arguments (in particular the wall centre), the compact nodes are
+    the ones of the spacing asked for, and the cache is current.  (M = N = 3; both spacings.)"""
+    args3 = {n: real(f"ctor.{n}") for n in ("tailLengthInside", "tailLengthOutside", "wallThickness", "momentumFalloffT", "ratioPointsWall", "smoothing", "wallCenter")}
+    pre3 = [Gt(args3["wallThickness"], 0), Gt(args3["smoothing"], 0), Gt(args3["ratioPointsWall"], 0), Lt(args3["ratioPointsWall"], 1),
+            Gt(args3["momentumFalloffT"], 0),
+            Gt(args3["tailLengthInside"], args3["wallThickness"] * (sym.R(1, 2) + args3["smoothing"]) / args3["ratioPointsWall"]),
+            Gt(args3["tailLengthOutside"], args3["wallThickness"] * (sym.R(1, 2) + args3["smoothing"]) / args3["ratioPointsWall"])]
+    for spacing in ("Spectral", "Uniform"):
+        def mk(it, spacing=spacing):
+            for c in pre3:
+                it.assume(c)
+            g = SymObj("Grid3Scales", "grid3Scales", label="grid3-new")
+            return g, [3, 3, args3["tailLengthInside"], args3["tailLengthOutside"], args3["wallThickness"], args3["momentumFalloffT"],
+                       args3["ratioPointsWall"], args3["smoothing"], args3["wallCenter"], spacing], {}, {"g": g}
+        rets = sel(chk.summarize("grid3Scales", "Grid3Scales.__init__", mk, record=(spacing == "Spectral")))
+        if not rets:
+            chk.undecided.append(f"Grid3Scales.__init__[{spacing}]: no returning path")
+        for i, p in enumerate(rets):
+            g = p.state["g"]
+            a = g.attrs
+            fn = "grid3Scales.Grid3Scales.__init__"
+            chk.vc(f"Grid3Scales.__init__.{spacing}.parameters-are-the-arguments.{i}", p.pc,
+                   And(*[Eq(a.get(n, sp.nan), args3[n]) for n in args3], Eq(a.get("positionFalloff", sp.nan), args3["wallThickness"]),
+                       sym.to_sym(a.get("M") == 3 and a.get("N") == 3 and a.get("spacing") == spacing)), func=fn)
+            cache_is_current(chk, f"Grid3Scales.__init__.{spacing}.cache-is-current.{i}", g, p.pc, "grid3Scales", "Grid3Scales", fn)
+            chi = as_array(a["chiValues"]).reshape(-1)
+            chk.vc(f"Grid3Scales.__init__.{spacing}.nodes.{i}", p.pc,
+                   And(sym.to_sym(len(chi) == 2), Eq(chi[0], -chi[1]), Gt(chi[1], 0), Lt(chi[1], 1)) if len(chi) == 2 else sp.false, func=fn)
+    pf, mf = real("ctor.positionFalloff"), real("ctor.momentumFalloffT")
+
+    def mkg(it):
+        for c in (Gt(pf, 0), Gt(mf, 0)):
+            it.assume(c)
+        g = SymObj("Grid", "grid", label="grid-new")
+        return g, [3, 3, pf, mf], {}, {"g": g}
+    for i, p in enumerate(sel(chk.summarize("grid", "Grid.__init__", mkg))):
+        g = p.state["g"]
+        chk.vc(f"Grid.__init__.parameters-are-the-arguments.{i}", p.pc, And(Eq(g.attrs["positionFalloff"], pf), Eq(g.attrs["momentumFalloffT"], mf)), func="grid.Grid.__init__")
+        cache_is_current(chk, f"Grid.__init__.cache-is-current.{i}", g, p.pc, "grid", "Grid", "grid.Grid.__init__")
 
 
 def c_callers(chk):
